@@ -27,6 +27,9 @@ from harness import c08extras as XT
 G.ENUMS.update(X.EXTRA)
 G.BY_VALUE.update(X.BY_VALUE)
 
+X_NEAR = sorted({m.name for c in G.ENUMS.values() for m in c}) + \
+    sorted({m.value for c in G.ENUMS.values() for m in c if isinstance(m.value, str)}) + [1, 2, 3, 0, 0.5, 2.0]
+
 VT = "python3-vt"
 WORKER = os.path.join(os.path.dirname(os.path.dirname(os.path.abspath(__file__))), "c08_vt_worker.py")
 NAMES = ["a", "b_c", "d", "e_f1", "g"]
@@ -824,6 +827,19 @@ def rep_required_empty(doc, ctx):
     walk_schemas(doc, fn)
 
 
+def rep_enum_dups(doc, ctx):
+    def fn(s_):
+        if isinstance(s_.get("enum"), list):
+            out = []
+            for x in s_["enum"]:
+                if not any(type(x) is type(y) and x == y for y in out):
+                    out.append(x)
+            if len(out) != len(s_["enum"]):
+                s_["enum"] = out
+                ctx["changed"] = True
+    walk_schemas(doc, fn)
+
+
 def rep_exclmax(doc, ctx):
     def fn(s):
         if "exclusiveMaximum" in s and "maximum" not in s:
@@ -861,15 +877,17 @@ def has_key(s, key):
 
 
 def rep_tuple_untyped(doc, ctx):
-    """Tuple export (items list + additionalItems false): the serializer renders Tuple elements without their item
-    fields, so an enum member with a mixed-in primitive type appears by value where the item schema lists names."""
-    def fn(s):
-        if s.get("type") == "array" and isinstance(s.get("items"), list) and s.get("additionalItems") is False:
-            for i, x in enumerate(s["items"]):
+    """The serializer renders Tuple elements without their item fields, so an enum member with a mixed-in primitive
+    type appears by value where the item schema lists names."""
+    env = ctx["env"]
+
+    def fn(f, s_):
+        if f["t"] == "tuple" and isinstance(s_.get("items"), list):
+            for i, x in enumerate(s_["items"]):
                 if has_key(x, "enum"):
-                    s["items"][i] = {}
+                    s_["items"][i] = {}
                     ctx["changed"] = True
-    walk_schemas(doc, fn)
+    class_walk(env, env.top, doc, doc, fn, set())
 
 
 def rep_wrapper(doc, ctx):
@@ -1180,18 +1198,20 @@ def rep_positional_min(doc, ctx):
 
 
 WF_REPAIRS = [("patternProperties-not-an-object-of-schemas", rep_patprops), ("required-empty", rep_required_empty),
-              ("exclusiveMaximum-without-maximum", rep_exclmax)]
-COMPLETE_REPAIRS = [("sign-only-bound-rendered-as-epsilon", rep_eps), ("nested-field-wrapper", rep_wrapper),
+              ("exclusiveMaximum-without-maximum", rep_exclmax),
+              ("enum-entries-not-unique", rep_enum_dups)]
+# AST-aware repairs (they walk the declarations in parallel with the export) come before the ones that reshape it
+COMPLETE_REPAIRS = [("sign-dropped-under-explicit-bound", rep_sign),
+                    ("enum-member-among-literals-serialized-as-stored", rep_literal_member),
+                    ("Tuple-elements-serialized-without-their-item-fields", rep_tuple_untyped),
+                    ("sign-only-bound-rendered-as-epsilon", rep_eps), ("nested-field-wrapper", rep_wrapper),
                     ("required-key-of-None-valued-attribute-dropped", rep_none_required),
                     ("single-item-Tuple-is-homogeneous", rep_tuple1),
-                    ("Tuple-elements-serialized-without-their-item-fields", rep_tuple_untyped),
                     ("mapper-propagates-into-nested-class", rep_nested_mapper),
                     ("Set-minItems-checked-before-normalisation", rep_set_minitems),
                     ("uniqueItems-checked-before-normalisation", rep_unique_bool),
                     ("exclusiveMaximum-applied-to-sign-implied-maximum", rep_excl_implied),
                     ("Map-size-exported-as-minItems-maxItems", rep_map_sizes),
-                    ("sign-dropped-under-explicit-bound", rep_sign),
-                    ("enum-member-among-literals-serialized-as-stored", rep_literal_member),
                     ("subclass-instance-under-base-class-reference", rep_subclass_instance),
                     ("Boolean-string-form-stored-raw", rep_bool_strings),
                     ("Optional-element-serialized-as-null", rep_null_elements),
@@ -1204,10 +1224,11 @@ COMPLETE_REPAIRS = [("sign-only-bound-rendered-as-epsilon", rep_eps), ("nested-f
 
 # exactness: a repair explains "admitted by the schema, rejected by the Deserializer" when the repaired (stricter)
 # schema rejects the document
-EXACT_REPAIRS = [("positional-items-admit-shorter-arrays", rep_positional_min),
+EXACT_REPAIRS = [("sign-dropped-under-explicit-bound", rep_sign),
+                 ("positional-items-admit-shorter-arrays", rep_positional_min),
                  ("nested-field-wrapper", rep_wrapper),
                  ("Map-size-exported-as-minItems-maxItems", rep_map_sizes),
-                 ("sign-dropped-under-explicit-bound", rep_sign)]
+                 ("Boolean-string-form-stored-raw", rep_bool_strings)]
 
 
 def apply_repairs(doc, repairs, ctx):
@@ -1400,6 +1421,124 @@ def near(rnd, j):
     return rnd.choice([0, "a", [], {}])
 
 
+def _num_points(s_):
+    lo, hi, m, t = s_.get("minimum"), s_.get("maximum"), s_.get("multipleOf"), s_.get("type")
+    pts = [0, 1, -1]
+    for b in (lo, hi):
+        if isinstance(b, (int, float)) and not isinstance(b, bool):
+            pts += [b, b - 1, b + 1, math.floor(b), math.ceil(b)]
+            if t != "integer":
+                pts += [b - 0.5, b + 0.5, math.nextafter(float(b), math.inf), math.nextafter(float(b), -math.inf)]
+    if isinstance(m, (int, float)) and not isinstance(m, bool) and m:
+        pts += [m, 2 * m, m + 1, -m]
+        for b in (lo, hi):
+            if isinstance(b, (int, float)) and not isinstance(b, bool):
+                q = math.floor(b / m)
+                pts += [q * m, (q + 1) * m, (q - 1) * m]
+    out = []
+    for p_ in pts:
+        if isinstance(p_, float) and p_.is_integer() and abs(p_) < 2 ** 53:
+            out += [int(p_), p_] if t != "integer" else [int(p_)]
+        else:
+            out.append(p_)
+    return out
+
+
+def _resolve(s_, defs):
+    for _ in range(4):
+        if isinstance(s_, dict) and isinstance(s_.get("$ref"), str):
+            s_ = defs.get(s_["$ref"][len("#/definitions/"):], {})
+    return s_ if isinstance(s_, dict) else {}
+
+
+def variants(s_, v, defs, depth=0):
+    """Values at and next to the boundaries the (dialect-translated) schema s_ draws, starting from the admitted
+    value v: every keyword of the schema contributes the points just inside and just outside."""
+    s_ = _resolve(s_, defs)
+    out = []
+    if depth > 3:
+        return out
+    for key in ("allOf", "anyOf", "oneOf"):
+        for br in s_.get(key) or []:
+            out += variants(br, v, defs, depth + 1)
+    if isinstance(s_.get("not"), dict):
+        out += variants(s_["not"], v, defs, depth + 1)
+    if isinstance(s_.get("enum"), list):
+        out += list(s_["enum"])
+        for x in s_["enum"][:3]:
+            if isinstance(x, str):
+                out += [x.lower(), x + "x"]
+            elif isinstance(x, (int, float)) and not isinstance(x, bool):
+                out += [x + 1, str(x)]
+        out += X_NEAR
+    t = s_.get("type")
+    if t in ("integer", "number") or any(k in s_ for k in ("minimum", "maximum", "multipleOf")):
+        out += _num_points(s_)
+        if t == "integer":
+            out += [True, 1.0, 1.5]
+    if t == "string" or any(k in s_ for k in ("minLength", "maxLength", "pattern")):
+        lens = {0, 1}
+        for k in ("minLength", "maxLength"):
+            if isinstance(s_.get(k), int):
+                lens |= {max(0, s_[k] - 1), s_[k], s_[k] + 1}
+        pool = list(G.STRINGS) + ["a" * n for n in sorted(lens)]
+        if isinstance(s_.get("pattern"), str):
+            try:
+                rx = re.compile(s_["pattern"])
+                pool = [x for x in pool if rx.search(x)] + pool[:3]
+            except re.error:
+                pass
+        out += [x for x in pool if len(x) in lens][:8]
+    if t == "boolean":
+        out += [True, False, "True", 1]
+    if isinstance(v, list) and (t == "array" or "items" in s_):
+        items = s_.get("items")
+        lens = {0, max(0, len(v) - 1), len(v) + 1}
+        for k in ("minItems", "maxItems"):
+            if isinstance(s_.get(k), int):
+                lens |= {max(0, s_[k] - 1), s_[k], s_[k] + 1}
+        if isinstance(items, list):
+            lens |= {max(0, len(items) - 1), len(items), len(items) + 1}
+        for n in sorted(lens):
+            if n <= 6 and n != len(v):
+                out.append((v + [v[-1] if v else 0] * n)[:n])
+        if v and s_.get("uniqueItems"):
+            out.append(v + [v[0]])
+        for i in range(min(len(v), 2)):
+            sub = items[i] if isinstance(items, list) and i < len(items) else (items if isinstance(items, dict) else None)
+            if sub is not None:
+                for w in variants(sub, v[i], defs, depth + 1)[:10]:
+                    out.append(v[:i] + [w] + v[i + 1:])
+    if isinstance(v, dict) and (t == "object" or "properties" in s_ or "additionalProperties" in s_):
+        props = s_.get("properties") if isinstance(s_.get("properties"), dict) else {}
+        for k in sorted(v):
+            sub = props.get(k, s_.get("additionalProperties") if isinstance(s_.get("additionalProperties"), dict) else None)
+            if isinstance(sub, dict):
+                for w in variants(sub, v[k], defs, depth + 1)[:12]:
+                    out.append(dict(v, **{k: w}))
+            out.append({a_: b_ for a_, b_ in v.items() if a_ != k})
+        out.append(dict(v, zz_extra=1))
+    return out
+
+
+def boundary_docs(doc, base, cap):
+    """Deterministic boundary documents of the exported document `doc` around the admitted document `base`."""
+    top = {k: x for k, x in doc.items() if k != "definitions"}
+    seen, out = set(), []
+    for w in variants(top, base, doc.get("definitions", {})):
+        try:
+            key = json.dumps(w, sort_keys=True)
+        except (TypeError, ValueError):
+            continue
+        if key not in seen and w != base:
+            seen.add(key)
+            out.append(w)
+    if len(out) > cap:           # spread over the whole list (the keys of the document come in order)
+        step = len(out) / cap
+        out = [out[int(i * step)] for i in range(cap)]
+    return out
+
+
 def deser_accepts(env, doc):
     """The Deserializer paired with the export: for a field wrapper (exported in compact form) the documented
     compact deserialization is switched on."""
@@ -1419,10 +1558,43 @@ def deser_accepts(env, doc):
 
 # ------------------------------------------------------------------ the check
 
+def rejects_alone(env, f, v):
+    """Does the Deserializer reject value v for declaration f taken alone (single-field class)?"""
+    from typedpy import Deserializer
+    try:
+        T = S.single_field_class(f, env)
+        Deserializer(T).deserialize({"f": copy.deepcopy(v)})
+        return False
+    except Exception:  # noqa
+        return True
+
+
+def deep_culprit(env, f, v, depth=0):
+    """Shape of the innermost declaration(s) responsible for the rejection of v."""
+    t = f["t"]
+    if depth < 4:
+        if t == "ref" and isinstance(v, dict) and f["cls"] in env.classes and not env.wrapper_form(f["cls"]):
+            ren = dict(env.renames(f["cls"]))
+            inner = [deep_culprit(env, fd["field"], v[ren.get(fd["name"], fd["name"])], depth + 1)
+                     for fd in env.all_fields(f["cls"])
+                     if ren.get(fd["name"], fd["name"]) in v and rejects_alone(env, fd["field"], v[ren.get(fd["name"], fd["name"])])]
+            if inner:
+                return "ref(%s)" % "+".join(sorted(set(inner)))
+        if t == "seqeach" and isinstance(v, list):
+            inner = [deep_culprit(env, f["item"], x, depth + 1) for x in v if rejects_alone(env, f["item"], x)]
+            if inner:
+                return "seqeach(%s)" % "+".join(sorted(set(inner)))
+        if t == "mapkv" and isinstance(v, dict):
+            inner = [deep_culprit(env, f["vf"], x, depth + 1) for x in v.values() if rejects_alone(env, f["vf"], x)]
+            if inner:
+                return "mapkv(%s)" % "+".join(sorted(set(inner)))
+    return field_kind(f)
+
+
 def exact_culprit(env, doc, exn):
     """Which field of the top class makes the Deserializer reject a document its schema admits: every field is tried
-    alone, in a single-field class, on its own value.  -> declaration shape(s)."""
-    from typedpy import Deserializer
+    alone, in a single-field class, on its own value (descending into nested structures, arrays and maps).
+    -> declaration shape(s)."""
     fields = env.all_fields(env.top)
     if env.wrapper_form(env.top):
         if isinstance(doc, dict):
@@ -1433,13 +1605,7 @@ def exact_culprit(env, doc, exn):
         pairs = [(fd, doc[ren.get(fd["name"], fd["name"])]) for fd in fields if ren.get(fd["name"], fd["name"]) in doc]
     else:
         return "document"
-    out = []
-    for fd, v in pairs:
-        try:
-            T = S.single_field_class(fd["field"], env)
-            Deserializer(T).deserialize({"f": copy.deepcopy(v)})
-        except Exception as ex:  # noqa
-            out.append(field_kind(fd["field"]))
+    out = [deep_culprit(env, fd["field"], v) for fd, v in pairs if rejects_alone(env, fd["field"], v)]
     return "+".join(sorted(set(out))) if out else "class"
 
 
@@ -1572,8 +1738,11 @@ def run(rep, tier):
         docs = [j for _, _, j in sers]
         last_top = ev.cls == env.top and not any(c == env.top for c, _ in env.history[ev.pos + 1:])
         if last_top and exact_class(env) and docs:
-            for _ in range(6 if tier == "quick" else 10):
+            for _ in range(4 if tier == "quick" else 8):
                 docs.append(near(rnd, rnd.choice(docs[:len(sers)])))
+                kinds.append("near")
+            for w in boundary_docs(doc, docs[0], 24 if tier == "quick" else 60):
+                docs.append(w)
                 kinds.append("near")
             extra = dict(docs[0]) if isinstance(docs[0], dict) else None
             if extra is not None:      # always probe additionalProperties and a missing required key
@@ -1733,6 +1902,10 @@ def run(rep, tier):
                 body += "Eval vm_compute in (indices_where %s cases 0).\n" % fn
             shards.append(("R", chunk, body, 2))
         # validator stream
+        vcap = 2500 if tier == "quick" else 15000
+        if len(vcases) > vcap:      # the model-vs-validator correspondence does not need every document
+            step = len(vcases) / float(vcap)
+            vcases = [vcases[int(i * step)] for i in range(vcap)]
         vper = chunk_size(len(vcases), 10, 400)
         for s in range(0, len(vcases), vper):
             chunk = vcases[s:s + vper]
